@@ -129,6 +129,8 @@ struct Th {
     harness: bool,
     token: bool,
     yielded: bool,
+    /// the thread is descheduled inside a busy-wait hint (it waits for another thread's step)
+    at_spin: bool,
     timed_out: bool,
     std_id: Option<ThreadId>,
     bracket: u32,
@@ -153,6 +155,13 @@ struct SbEntry {
 const SB_MAX_AGE: u32 = 1;
 /// deferred stores per thread
 const SB_CAP: usize = 1;
+
+/// see Engine::break_at
+#[derive(Clone, Copy)]
+pub struct Breakpoint {
+    hit: &'static AtomicBool,
+    go: &'static AtomicBool,
+}
 
 #[derive(Clone)]
 pub struct EngineCfg {
@@ -234,7 +243,7 @@ pub struct State {
     dead_objs: Vec<(&'static str, usize)>,
     obj_size: Vec<(usize, usize)>,
     /// armed breakpoints: the next thread that emits the label blocks on the flag
-    breakpoints: Vec<(&'static str, usize)>,
+    breakpoints: Vec<(&'static str, usize, usize)>,
     spurious_used: bool,
 }
 
@@ -273,6 +282,7 @@ impl Engine {
             harness: true,
             token: false,
             yielded: false,
+            at_spin: false,
             timed_out: false,
             std_id: Some(std::thread::current().id()),
             bracket: 0,
@@ -420,6 +430,7 @@ impl Engine {
                 harness: true,
                 token: false,
                 yielded: false,
+                at_spin: false,
                 timed_out: false,
                 std_id: None,
                 bracket: 0,
@@ -484,14 +495,20 @@ impl Engine {
 
     /// breakpoint (time shaping): the next thread of the code under test that passes the hook label `name` is held there
     /// until the returned flag is set with `release`. The harness learns that it got there with `wait_label(name)`.
-    pub fn break_at(&self, name: &'static str) -> &'static AtomicBool {
-        let f: &'static AtomicBool = Box::leak(Box::new(AtomicBool::new(false)));
-        self.lock().breakpoints.push((name, f as *const _ as usize));
-        f
+    pub fn break_at(&self, name: &'static str) -> Breakpoint {
+        let hit: &'static AtomicBool = Box::leak(Box::new(AtomicBool::new(false)));
+        let go: &'static AtomicBool = Box::leak(Box::new(AtomicBool::new(false)));
+        self.lock().breakpoints.push((name, go as *const _ as usize, hit as *const _ as usize));
+        Breakpoint { hit, go }
     }
 
-    pub fn release(&self, f: &'static AtomicBool) {
-        f.store(true, Ordering::SeqCst);
+    /// block until a thread is held at the breakpoint
+    pub fn wait_hit(&self, b: Breakpoint) {
+        self.wait_flag(b.hit);
+    }
+
+    pub fn release(&self, b: Breakpoint) {
+        b.go.store(true, Ordering::SeqCst);
         self.sched_point();
     }
 
@@ -806,6 +823,14 @@ impl Engine {
                     }
                 }
             }
+            // quiescence modulo busy-waiters: when every runnable thread sits in a busy-wait hint, nothing can happen
+            // until somebody else acts - a quiescing harness thread is that somebody
+            if en.iter().all(|&t| st.th[t].at_spin) {
+                if let Some(q) = (0..n).find(|&t| !st.th[t].finished && matches!(st.th[t].blocked, Some(Cond::Quiesce))) {
+                    st.th[q].blocked = None;
+                    return (st, q);
+                }
+            }
             // default choice
             let pref: Vec<usize> = {
                 let ny: Vec<usize> = en.iter().cloned().filter(|&t| !st.th[t].yielded).collect();
@@ -1021,6 +1046,7 @@ impl Hooks for Engine {
             return;
         }
         let mut st = self.lock();
+        st.th[me].at_spin = false;
         self.record(&mut st, me, op, addr, loc);
         let mut flush_after = false;
         if st.cfg.tso && !st.th[me].sbuf.is_empty() {
@@ -1152,6 +1178,7 @@ impl Hooks for Engine {
             harness: false,
             token: false,
             yielded: false,
+            at_spin: false,
             timed_out: false,
             std_id: None,
             bracket: 0,
@@ -1327,7 +1354,14 @@ impl Hooks for Engine {
     }
 
     fn spin(&self) {
-        self.yield_hint();
+        let me = me();
+        if me == usize::MAX {
+            return;
+        }
+        let mut st = Engine::lock(self);
+        st.th[me].yielded = true;
+        st.th[me].at_spin = true;
+        self.resched(st, me);
     }
 
     fn yield_hint(&self) {
@@ -1367,7 +1401,8 @@ impl Hooks for Engine {
             st.labels.push((me, s, arg));
         }
         if let Some(i) = st.breakpoints.iter().position(|b| b.0 == s) {
-            let (_, flag) = st.breakpoints.remove(i);
+            let (_, flag, hit) = st.breakpoints.remove(i);
+            unsafe { &*(hit as *const AtomicBool) }.store(true, Ordering::SeqCst);
             st.th[me].blocked = Some(Cond::Flag(flag));
             self.resched(st, me);
             st = Engine::lock(self);
